@@ -234,6 +234,14 @@ def parse_interface_type(
                 for f in inline_fragments + fragments_on_subtypes
             }
         )
+        # fragments of spread super-type fragment can name types field never returns
+        fragments_types_names = [
+            name
+            for name in fragments_types_names
+            if not _is_object_type_not_implementing(
+                context.definitions.schema, name, type_
+            )
+        ]
         for fragment_type_name in fragments_types_names:
             types.append(
                 generate_annotation_name(
@@ -253,6 +261,15 @@ def parse_interface_type(
         RelatedClassData(class_name=name, type_name=type_.name)
     )
     return generate_annotation_name('"' + name + '"', nullable)
+
+
+def _is_object_type_not_implementing(
+    schema: GraphQLSchema, type_name: str, interface: GraphQLInterfaceType
+) -> bool:
+    type_ = schema.type_map.get(type_name)
+    return isinstance(type_, GraphQLObjectType) and not schema.is_sub_type(
+        interface, type_
+    )
 
 
 def parse_object_type(
